@@ -54,22 +54,95 @@ pub open spec fn at_cap(f: Tree, r: Tree) -> Option<(Tree, Tree)> {
         }
     } else { None }
 }
-// ASSUMED contract (stage_2/inline.rs::is_at_capture is not under proof here)
+//@ note non_nil (classic): true exactly when the node's value is not the empty atom
+//@ extract fn non_nil from src/classic/clvm/sexp.rs
+//@ sig r
+    requires node_tree(*allocator, sexp) is Some
+    ensures r == (node_tree(*allocator, sexp)->Some_0 != tnil())
+//@ before stmt @<match allocator.sexp(sexp) {>@
+    proof {
+        match node_tree(*allocator, sexp)->Some_0 { Tree::Atom(v) => { if v.len() == 0 { assert(v =~= Seq::<u8>::empty()); } } Tree::Pair(_, _) => {} }
+    }
+//@ end
+pub open spec fn tsz(t: Tree) -> nat
+    decreases t
+{
+    match t { Tree::Atom(_) => 1, Tree::Pair(a, b) => 1 + tsz(*a) + tsz(*b) }
+}
+// the elements of a nil-terminated list
+pub open spec fn plist(t: Tree) -> Option<Seq<Tree>>
+    decreases t
+{
+    match t {
+        Tree::Atom(v) => if v.len() == 0 { Some(Seq::<Tree>::empty()) } else { None },
+        Tree::Pair(a, b) => match plist(*b) { Some(x) => Some(seq![*a] + x), None => None },
+    }
+}
+pub open spec fn nodes_are(a: Allocator, v: Seq<NodePtr>, x: Seq<Tree>) -> bool {
+    v.len() == x.len() && forall|i: int| 0 <= i < v.len() ==> node_tree(a, #[trigger] v[i]) == Some(x[i])
+}
+//@ note proper_list (classic): Some(the element nodes) exactly when the value is a nil-terminated list
+//@ extract fn proper_list from src/classic/clvm/sexp.rs
+//@ sig r
+    requires node_tree(*allocator, sexp) is Some
+    ensures match plist(node_tree(*allocator, sexp)->Some_0) {
+        Some(x) => r matches Some(v) && (store ==> nodes_are(*allocator, v@, x)),
+        None => r is None,
+    }
+//@ before stmt @<let mut args_sexp = sexp;>@
+    let ghost t0 = node_tree(*allocator, sexp)->Some_0;
+    let ghost mut verif_pre: Seq<Tree> = Seq::<Tree>::empty();
+    proof { match plist(t0) { Some(y) => { assert(verif_pre + y =~= y); } None => {} } }
+//@ loop 0
+        invariant
+            node_tree(*allocator, args_sexp) is Some,
+            t0 == node_tree(*allocator, sexp)->Some_0,
+            plist(t0) == (match plist(node_tree(*allocator, args_sexp)->Some_0) { Some(y) => Some(verif_pre + y), None => None }),
+            store ==> nodes_are(*allocator, args@, verif_pre),
+        decreases tsz(node_tree(*allocator, args_sexp)->Some_0)
+//@ before stmt @<return Some(args);>@
+                    proof { assert(verif_pre + Seq::<Tree>::empty() =~= verif_pre); }
+//@ before stmt @<return None;>@
+                    proof { match node_tree(*allocator, args_sexp)->Some_0 { Tree::Atom(v) => { if v.len() == 0 { assert(v =~= Seq::<u8>::empty()); } } Tree::Pair(_, _) => {} } }
+//@ before stmt @<if store {>@
+                proof {
+                    let a = node_tree(*allocator, f)->Some_0;
+                    match plist(node_tree(*allocator, r)->Some_0) { Some(y) => { assert(verif_pre.push(a) + y =~= verif_pre + (seq![a] + y)); } None => {} }
+                    verif_pre = verif_pre.push(a);
+                }
+//@ end
+pub proof fn lemma_plist_two(r: Tree)
+    ensures
+        (plist(r) matches Some(x) && x.len() == 2) <==> (r matches Tree::Pair(c, r2) && (*r2 matches Tree::Pair(d, r3) && *r3 == tnil())),
+        (plist(r) is Some && plist(r)->Some_0.len() == 2) ==> (r matches Tree::Pair(c, r2) && (*r2 matches Tree::Pair(d, r3) && plist(r)->Some_0[0] == *c && plist(r)->Some_0[1] == *d)),
+{
+    reveal_with_fuel(plist, 4);
+    match r {
+        Tree::Pair(c, r2) => match *r2 {
+            Tree::Pair(d, r3) => {
+                match *r3 { Tree::Atom(v) => { if v.len() == 0 { assert(v =~= Seq::<u8>::empty()); assert(plist(r) == Some(seq![*c] + (seq![*d] + Seq::<Tree>::empty()))); } }
+                            Tree::Pair(e, r4) => { match plist(*r4) { Some(z) => { assert(plist(r)->Some_0.len() == 3 + z.len()); } None => {} } } }
+            }
+            Tree::Atom(v) => { if v.len() == 0 { assert(plist(r) == Some(seq![*c] + Seq::<Tree>::empty())); } }
+        },
+        Tree::Atom(v) => {}
+    }
+}
+//@ note is_at_capture (classic parameter lists): Some(name, pattern) exactly for the form (@ name pattern)
 //@ extract fn is_at_capture from src/classic/clvm_tools/stages/stage_2/inline.rs
-//@ stub
+//@ canary any_length @<&& spec.len() == 2 {>@ => @<&& spec.len() >= 2 {>@
+//@ replace R7 @<first_atom.as_ref() == b"@" &&>@ => @<verif_slice_is(first_atom.as_ref(), [0x40u8]) &&>@
 //@ sig r
     requires node_tree(*allocator, tree_first) is Some, node_tree(*allocator, tree_rest) is Some
     ensures match at_cap(node_tree(*allocator, tree_first)->Some_0, node_tree(*allocator, tree_rest)->Some_0) {
         Some((c, d)) => r matches Some((rc, rd)) && node_tree(*allocator, rc) == Some(c) && node_tree(*allocator, rd) == Some(d),
         None => r is None,
     }
-//@ end
-// ASSUMED contract (classic/clvm/sexp.rs::non_nil)
-//@ extract fn non_nil from src/classic/clvm/sexp.rs
-//@ stub
-//@ sig r
-    requires node_tree(*allocator, sexp) is Some
-    ensures r == (node_tree(*allocator, sexp)->Some_0 != tnil())
+//@ before stmt @<if let (SExp::Atom, Some(spec)) = (>@
+    proof {
+        lemma_plist_two(node_tree(*allocator, tree_rest)->Some_0);
+        match node_tree(*allocator, tree_first)->Some_0 { Tree::Atom(v) => { if v.len() == 1 && v[0] == 0x40u8 { assert(v =~= seq![0x40u8]); } } Tree::Pair(_, _) => {} }
+    }
 //@ end
 // R46: NodeSel::Cons(ThisNode::Here, ThisNode::Here).select_nodes(allocator, n) (generic selector traits) -> first and rest of a pair
 #[verifier::external_body]
